@@ -1638,6 +1638,18 @@ class ModularVmap:
 
             # Deterministic and not control flow.
             else:
+                # A higher-order primitive this interpreter does not interpret
+                # (checkpoint, custom_jvp / custom_vjp calls, while, pjit, ...)
+                # is re-bound unchanged: a sampling site nested in it would not
+                # see the vectorization context and one draw would be shared
+                # by all lanes.
+                nested = _nested_sample_params(eqn.params)
+                if (
+                    nested is not None
+                    and enforce_lowering_exception
+                    and "lowering_exception" in nested
+                ):
+                    raise nested["lowering_exception"]
                 outvals = eqn.primitive.bind(*args, **params)
 
             if not eqn.primitive.multiple_results:
